@@ -58,6 +58,12 @@ def legOfStr (s : String) : Option Leg :=
       let tag ← natOfStr tag
       let tc ← boolOfStr tc
       pure (.msg tag tc)
+  -- a reply of more than 4096 octets ("big"), a TC reply cut in the middle of a record ("cut"): still a reply
+  -- with / without TC as far as the property is concerned
+  | ["ok", tag, tc, _shape] => do
+      let tag ← natOfStr tag
+      let tc ← boolOfStr tc
+      pure (.msg tag tc)
   | _ => none
 
 def strOfLeg : Leg → String
